@@ -47,6 +47,13 @@ var frameAllowed = map[string][]string{
 	"parseFormat":              {"args"},
 }
 
+// methods of *big.Int, *big.Rat and *big.Float that do not modify their receiver
+var bigReadOnly = map[string]bool{"Sign": true, "BitLen": true, "Cmp": true, "CmpAbs": true, "IsInt64": true, "IsUint64": true, "Int64": true,
+	"Uint64": true, "Bits": true, "Bit": true, "String": true, "Text": true, "Append": true, "Format": true, "Num": true, "Denom": true, "IsInt": true,
+	"Float64": true, "Float32": true, "FloatString": true, "TrailingZeroBits": true, "ProbablyPrime": true, "Bytes": true, "FillBytes": true,
+	"Prec": true, "MinPrec": true, "Mode": true, "Acc": true, "MantExp": true, "IsInf": true, "Signbit": true, "Int": true, "Rat": true,
+	"MarshalText": true, "MarshalJSON": true, "GobEncode": true, "IsNegative": true}
+
 type rootKind int
 
 const (
@@ -103,6 +110,11 @@ func traceRoots(v ssa.Value, seen map[ssa.Value]bool, out *[]root) {
 		}
 		// result of another call: for package functions that return one of their buffer arguments
 		// (Append, fmtE, ...) follow the slice/pointer arguments; external results are fresh
+		if f := x.Call.StaticCallee(); f != nil && f.Pkg != nil && f.Pkg.Pkg.Path() == "math/big" && f.Signature.Recv() != nil && len(x.Call.Args) > 0 {
+			// math/big methods return their receiver (the destination), never an operand
+			traceRoots(x.Call.Args[0], seen, out)
+			return
+		}
 		if f := x.Call.StaticCallee(); f != nil {
 			for _, a := range x.Call.Args {
 				switch a.Type().Underlying().(type) {
@@ -177,6 +189,22 @@ func frameCheck(w *World) (findings []FrameFinding, nfuncs int, err error) {
 					checkWrite(ins, x.Addr, "store")
 				case *ssa.MapUpdate:
 					checkWrite(ins, x.Map, "map update")
+				case *ssa.Return:
+					// a slice, pointer or map handed to the caller must not be (part of) a package-level
+					// variable: the caller, or a later call that is given the result as its buffer, would
+					// write into shared state
+					for _, rv := range x.Results {
+						switch rv.Type().Underlying().(type) {
+						case *types.Slice, *types.Pointer, *types.Map:
+							var rs []root
+							traceRoots(rv, map[ssa.Value]bool{}, &rs)
+							for _, r := range rs {
+								if r.kind == rootGlobal {
+									report(ins, "returns a reference into package-level variable "+r.name)
+								}
+							}
+						}
+					}
 				case *ssa.Send:
 					report(ins, "channel send")
 				case *ssa.Go:
@@ -191,6 +219,15 @@ func frameCheck(w *World) (findings []FrameFinding, nfuncs int, err error) {
 							checkWrite(ins, x.Call.Args[0], "append")
 						case "clear":
 							checkWrite(ins, x.Call.Args[0], "clear")
+						}
+					}
+					// math/big: the receiver of every method except the read-only ones is the destination
+					if callee := x.Call.StaticCallee(); callee != nil && callee.Pkg != nil && callee.Pkg.Pkg.Path() == "math/big" && callee.Signature.Recv() != nil && len(x.Call.Args) > 0 {
+						if _, isPtr := callee.Signature.Recv().Type().(*types.Pointer); isPtr && !bigReadOnly[callee.Name()] {
+							checkWrite(ins, x.Call.Args[0], "math/big "+callee.Name())
+							if callee.Name() == "QuoRem" || callee.Name() == "DivMod" {
+								checkWrite(ins, x.Call.Args[len(x.Call.Args)-1], "math/big "+callee.Name()+" (remainder argument)")
+							}
 						}
 					}
 					// address of a package-level variable handed to a callee
